@@ -2,12 +2,15 @@ package main
 
 import (
 	"bufio"
+	"crypto/rand"
 	"fmt"
 	"strconv"
 	"strings"
 
+	"hop.computer/hop/certs"
 	"hop.computer/hop/config"
 	"hop.computer/hop/hopserver"
+	"hop.computer/hop/keys"
 	"hop.computer/hop/pkg/glob"
 	. "hopverif/hvlib"
 )
@@ -160,6 +163,38 @@ func gen(g *GenCtx) {
 	}
 }
 
+var idKey *keys.X25519KeyPair
+var idLeaf, idInter *certs.Certificate
+var idKEM *keys.KEMKeyPair
+
+// identity is one key/certificate set shared by all generated name blocks.
+func identity() (*keys.X25519KeyPair, *certs.Certificate, *certs.Certificate, *keys.KEMKeyPair) {
+	if idKey == nil {
+		rk := keys.GenerateNewSigningKeyPair()
+		ik := keys.GenerateNewSigningKeyPair()
+		root, err := certs.SelfSignRoot(&certs.Identity{PublicKey: rk.Public, Names: []certs.Name{certs.RawStringName("r")}}, rk)
+		if err != nil {
+			panic(err)
+		}
+		root.ProvideKey((*[32]byte)(&rk.Private))
+		idInter, err = certs.IssueIntermediate(root, &certs.Identity{PublicKey: ik.Public, Names: []certs.Name{certs.RawStringName("i")}})
+		if err != nil {
+			panic(err)
+		}
+		idInter.ProvideKey((*[32]byte)(&ik.Private))
+		idKey = keys.GenerateNewX25519KeyPair()
+		idLeaf, err = certs.IssueLeaf(idInter, &certs.Identity{PublicKey: idKey.Public, Names: []certs.Name{certs.RawStringName("h")}})
+		if err != nil {
+			panic(err)
+		}
+		idKEM, err = keys.GenerateKEMKeyPair(rand.Reader)
+		if err != nil {
+			panic(err)
+		}
+	}
+	return idKey, idLeaf, idInter, idKEM
+}
+
 func parseList(s, sep string) ([]string, bool) {
 	if s == "." {
 		return nil, true
@@ -224,9 +259,16 @@ func run(in *bufio.Scanner, out *bufio.Writer) {
 			if !ok || !ok2 {
 				break
 			}
-			vh := make(hopserver.VirtualHosts, len(ps))
-			for i, p := range ps {
-				vh[i].Pattern = p
+			// the list is built the way hopd builds it: NewVirtualHosts over the configured name blocks
+			sc := &config.ServerConfig{}
+			k, leaf, inter, kem := identity()
+			for _, p := range ps {
+				sc.Names = append(sc.Names, config.NameConfig{Pattern: p, Key: k, Certificate: leaf, Intermediate: inter, KEMKey: kem})
+			}
+			vh, err := hopserver.NewVirtualHosts(sc, nil, nil)
+			if err != nil {
+				res = "err"
+				break
 			}
 			res = Guard(func() string {
 				m := vh.Match(string(n))
